@@ -351,3 +351,4 @@ EXPLANATION += (' Additions: PAIR/merge-scalars definite form (a covering scalar
 EXPLANATION += (' Round 6: ' + "OWN/classified: a new private helper of sequences_lib is analysed through the contract functions that call it; a new public function is 'cannot classify'.")
 EXPLANATION += (' Round 7: ' + 'WELLFORMED/no-negative-event-stored and WELLFORMED/reversed-rejected (scenarios shared with C13).')
 EXPLANATION += (' Rounds 9-10: ' + 'PAIR/end-total is located when nothing in the loop of an end_time store, and nothing after it, writes total_time.')
+EXPLANATION += (' Round 11: ' + 'WELLFORMED/assumes-sorted shared from C12.')
